@@ -1158,6 +1158,22 @@ def open_finding_keys(prop: str) -> set:
     return keys
 
 
+def replay_known_ci_fold() -> str | None:
+    """known finding ci-nonascii-fold (C12, C02): ^"k" | "a" on U+212A - accepted un-optimized (regex re.I), rejected once
+    squash_choice has written the class [Kk]"""
+    g = 'r = { ^"k" | "a" }'
+    try:
+        a = run_struct(P.make_parser(g, None).parse, "r", "\u212a", 0)[0]
+        b = run_struct(P.make_parser(g, mk_optimizer(list(PASS_NAMES))).parse, "r", "\u212a", 0)[0]
+    except Exception:  # noqa: BLE001
+        return None
+    if a != b:
+        return ('key=ci-nonascii-fold a case-insensitive literal folds non-ASCII characters differently per mode: r = { ^"k" | "a" } on '
+                'U+212A (KELVIN SIGN) is accepted with optimizer=None (regex re.I) and rejected with the default optimizer (squashed class [Kk]); '
+                'ASCII input is unaffected')
+    return None
+
+
 NULLABLE_TRIVIA_WITNESS = {"grammar": 'WHITESPACE = _{ "" | " " }\nr = { "a" ~ "b" }', "rule": "r", "input": "a b"}
 
 
@@ -1337,6 +1353,10 @@ def run_prop(out: Outcome, level_when_proved: str = "proof") -> None:
                 kept.append(f)
         direct = kept
         msg = replay_known_tag_finding(prop)
+        if msg:
+            out.known.append(msg)
+    if prop == "C02" and "ci-nonascii-fold" in open_finding_keys(prop):
+        msg = replay_known_ci_fold()
         if msg:
             out.known.append(msg)
     if prop == "C02" and "nullable-trivia-diverges" in open_finding_keys(prop):
